@@ -40,7 +40,9 @@ class Pattern(Leaf):
         _ = lean
         pat = self.pattern or ""
         # multiline patterns are OK
-        pat = trim(pat)
+        if '\n' in pat:
+            pat = trim(pat)
+        # NOTE: blanks and tabs of a one-line pattern are part of the pattern
         if '/' in pat or pat == '.':
             # NOTE: /./ is the Dot atom in the grammar language
             newpat = pat.replace('"', r'\"')
